@@ -31,7 +31,8 @@ ASSUMPTIONS = ["caches that are not settings are excluded from the snapshot: Mod
                "part of the user's configuration)"]
 REQUIRED_COUNTERS = ["observations", "snapshots_compared", "snapshot_leaves", "standalone_exposures",
                      "entries_vs_standalone", "permutation_pairs", "subset_pairs", "persistence_cases",
-                     "preloaded_cases", "dask_cases", "readout_sweeps"]
+                     "preloaded_cases", "dask_cases", "readout_sweeps", "calibrations",
+                     "calibration_champion_vs_standalone"]
 TIMEOUT = {"quick": 900, "thorough": 3600}
 LEVEL_TEXT = ("Exploration by runtime monitoring: hostile stateful models are swept by the real Observation; the caller's "
               "objects are snapshotted structurally before and after; every labelled entry is compared bucket by bucket "
@@ -206,7 +207,55 @@ def readout_sweep_case(rec, index, case):
                       f"{len(changed)} leaves of the caller's objects changed by a sweep of the readout times: {changed[:5]}", case, index)
 
 
+def calibration_case(rec, index, case):
+    """A toy calibration over the hostile pipeline: the caller's detector / pipeline must keep their
+    settings and contents, and the champion re-simulation must equal a standalone exposure."""
+    import os
+
+    import pyxel
+    from pyxel.calibration import Algorithm, Calibration
+    from pyxel.observation import ParameterValues
+    from pyxel.pipelines import FitnessFunction
+
+    detector = make_preloaded_detector(case)
+    pipe = build.make_pipeline(pipeline_spec(case))
+    rows, cols = case["rows"], case["cols"]
+    path = os.path.join(rec.tmp, f"target_{index}.npy")
+    np.save(path, np.random.default_rng(index).random((rows, cols)) * 1000)
+    cal = Calibration(target_data_path=[path],
+                      fitness_function=FitnessFunction(func="pyxel.calibration.fitness.sum_of_abs_residuals"),
+                      algorithm=Algorithm(type="sade", generations=1, population_size=7),
+                      parameters=[ParameterValues(key="pipeline.photon_collection.app.arguments.k", values="_", boundaries=(0.5, 9.5))],
+                      result_type="pixel", result_fit_range=(0, rows, 0, cols), target_fit_range=(0, rows, 0, cols),
+                      pygmo_seed=7 + index, num_islands=1, num_evolutions=1)
+    before = snapshot.snap({"detector": detector, "pipeline": pipe})
+    try:
+        tree = pyxel.run_mode(mode=cal, detector=detector, pipeline=pipe, with_inherited_coords=True)
+        k_best = float(tree["/champion/parameters"].values.ravel()[-1])
+        sim = np.asarray(tree["/simulated/pixel"].values).reshape(rows, cols)
+    except Exception as exc:  # noqa: BLE001
+        import traceback
+        rec.violation("C06:calibration:run-failed", f"{type(exc).__name__}: {exc} :: {traceback.format_exc()[-500:]}", case, index)
+        return
+    rec.count("calibrations")
+    after = snapshot.snap({"detector": detector, "pipeline": pipe})
+    changed = snapshot.diff(before, after)
+    if changed:
+        rec.violation("C06:calibration:caller-objects-changed",
+                      f"{len(changed)} leaves of the caller's objects changed by a calibration: {changed[:5]}", case, index)
+    single = dict(case, n_steps=1, non_destructive=False)
+    ref = standalone(single, k_best, None)
+    rec.count("calibration_champion_vs_standalone")
+    want = np.asarray(ref["pixel"].isel(time=-1).values)
+    if want.shape != sim.shape or not np.allclose(want, sim, rtol=1e-12, atol=0):
+        rec.violation("C06:calibration:champion-simulation-differs-from-standalone",
+                      f"re-simulated champion (k={k_best}) differs from a standalone exposure with that value: "
+                      f"max abs diff {float(np.max(np.abs(want - sim))) if want.shape == sim.shape else 'shape'}", case, index)
+
+
 def run_case(rec, index, case):
+    if index == 0:
+        calibration_case(rec, index, dict(case, n_steps=1, non_destructive=False))
     if case["dask"] and index % 3 == 0:
         readout_sweep_case(rec, index, case)
     sig = (case["kind"], case["persistence"], case["n_steps"], case["values"], case["temps"],
